@@ -5,7 +5,7 @@ from .. import core, gen, impl_thr, scen
 from ..runlib import split_line
 
 ID = "C01"
-BUDGET = {"quick": 600, "thorough": 60000}
+BUDGET = {"quick": 2400, "thorough": 300000}
 RULE = ("scenario = one scheduler (naive or any fixed offset) with 1-2 single-entry minutely/hourly/daily jobs "
         "(time of day incl. ignored fields, own offset, start in its own offset placed on/around an occurrence, "
         "or creation time) and 1-8 polls placed relative to observed due instants (exactly on, +-1us, +k periods, forced); "
